@@ -8,7 +8,7 @@ import ast
 
 from ..core import AnchorError, call_name, norm, short, own_nodes, kwarg, FUNC_TYPES
 from ..cfg import cfg_of
-from ..lib import calls_in, stmts_in, gate, must_pass, node_has, params, dominating_facts, effective_body, key_function
+from ..lib import calls_in, stmts_in, gate, must_pass, node_has, params, dominating_facts, effective_body, key_function, loop_escapes
 
 COMP = 'jedi.api.completion'
 CLS = 'jedi.api.classes'
@@ -205,7 +205,7 @@ def rule_g(repo, chk):
     outer = [l for l in loops if norm(l.iter) == 'values']
     chk.ob('C04.g', len(outer) == 1, f, 'one loop over all values')
     for lp in loops:
-        esc = [x for x in ast.walk(lp) if isinstance(x, (ast.Break, ast.Return))]
+        esc = loop_escapes(lp, (ast.Break, ast.Return))
         chk.ob('C04.g', not esc, lp, 'no break/return in `for %s in %s`' % (norm(lp.target), short(lp.iter, 40)))
     inner = [l for l in loops if 'get_filters(' in norm(l.iter)]
     chk.floor('C04.g', len(inner), 1)
@@ -216,7 +216,7 @@ def rule_g(repo, chk):
     chk.ob('C04.g', len(rets) == 1 and isinstance(rets[0].value, ast.Name), f, 'the accumulated list is returned')
     g = repo.find(COMP, 'Completion._complete_global_scope')
     lp = [n for n in own_nodes(g) if isinstance(n, ast.For)]
-    ok = len(lp) == 1 and not [x for x in ast.walk(lp[0]) if isinstance(x, (ast.Break, ast.Continue, ast.Return))] and \
+    ok = len(lp) == 1 and not loop_escapes(lp[0]) and \
         any(isinstance(s, ast.AugAssign) and '.values()' in norm(s.value) for s in lp[0].body)
     chk.ob('C04.g', ok, g, 'global completion collects values() of every filter of the scope chain')
     # instance: self attributes for every non-compiled MRO class, then the class filters
@@ -228,7 +228,7 @@ def rule_g(repo, chk):
     chk.ob('C04.g', ok, t, '... and then the class\'s own filters')
     k = repo.find('jedi.inference.value.klass', 'ClassMixin.get_filters')
     lp = [n for n in own_nodes(k) if isinstance(n, ast.For) and 'py__mro__()' in norm(n.iter)]
-    ok = len(lp) >= 1 and not [x for x in ast.walk(lp[0]) if isinstance(x, (ast.Break, ast.Return))]
+    ok = len(lp) >= 1 and not loop_escapes(lp[0], (ast.Break, ast.Return))
     chk.ob('C04.g', ok, k, 'a class offers the names of every class in its MRO (no early exit)')
     ok = any('get_metaclass' in norm(x) for x in ast.walk(k))
     chk.ob('C04.g', ok, k, 'a class consults its metaclasses')
@@ -261,7 +261,7 @@ def rule_h(repo, chk):
         loops = [l for l in own_nodes(f) if isinstance(l, (ast.For, ast.While))]
         for lp in loops:
             n += 1
-            esc = [x for x in ast.walk(lp) if isinstance(x, (ast.Break, ast.Return))]
+            esc = loop_escapes(lp, (ast.Break, ast.Return))
             head = 'while %s' % short(lp.test, 40) if isinstance(lp, ast.While) else 'for %s in %s' % (norm(lp.target), short(lp.iter, 40))
             chk.ob('C04.h', not esc, lp, '%s: the loop `%s` enumerates %s without break/return' % (q, head, what),
                    'left early at L%s' % esc[0].lineno if esc else '')
